@@ -62,6 +62,7 @@ def shards(tier):
     out.append({"kind": "unsigned-decode", "tier": tier})
     out.append({"kind": "ip", "tier": tier})
     out.append({"kind": "client", "tier": tier})
+    out.append({"kind": "wire", "tier": tier})
     return out
 
 
@@ -99,6 +100,100 @@ def run_client(acc):
             if bad:
                 acc.violation({"kind": bad, "detail": {**facts, "got": result, "agent_db": ag.db.get(OID)}, "facts": facts, "case": {"kind": "client"}})
     acc.sample({"family": "boundary values through Client.get / Client.set", "values": len(vals)})
+
+
+WIRE_NUMBERS = [0, 1, 2, 29, 30, 99, 100, 101, 127, 128, 255, 256, 6000, 65535, 65536, 360000, 8640000, 2**24 - 1, 2**24, 2**31 - 1, 2**31, 2**32 - 2, 2**32 - 1]
+
+
+def run_wire(acc):
+    """values as a caller really meets them: many of them decoded from ONE
+    datagram (multiget / walk / bulk walk), converted one after the other; and
+    again after the process has built TimeTicks from timedeltas that are not a
+    whole number of ticks (what a conversion did earlier must not colour a
+    later one)"""
+    import ipaddress
+
+    from puresnmp import PyWrapper
+    from puresnmp.credentials import V2C
+    from puresnmp.types import Counter, Counter64, Gauge, IpAddress, TimeTicks
+    from x690.types import ObjectIdentifier
+
+    from .. import drive
+    from ..ref import agent as ragent
+
+    base = (1, 3, 6, 1, 4, 1, 99)
+    db, want = {}, {}
+    for i, n in enumerate(WIRE_NUMBERS):
+        for col, (kind, cls) in enumerate((("tt", TimeTicks), ("c32", Counter), ("g32", Gauge), ("c64", Counter64)), start=1):
+            oid = base + (col, i + 1)
+            db[oid] = (kind, n)
+            want[oid] = (cls, n, TICK * n if kind == "tt" else n)
+        oid = base + (5, i + 1)
+        packed = (n % 2**32).to_bytes(4, "big")
+        db[oid] = ("ip", packed)
+        want[oid] = (IpAddress, ipaddress.IPv4Address(packed), ipaddress.IPv4Address(packed))
+    oids = sorted(db)
+
+    def fetch(how):
+        ag = ragent.Agent(db)
+        client, _ = world.make_client(V2C("public"), ag.handle)
+        if how == "multiget":
+            vals = drive.run(client.multiget([ObjectIdentifier(".".join(map(str, o))) for o in oids]))
+            return list(zip(oids, vals))
+        if how == "walk":
+            items, exc = drive.drain(client.walk(ObjectIdentifier(".".join(map(str, base)))), 10000)
+        elif how == "bulkwalk":
+            items, exc = drive.drain(client.bulkwalk([ObjectIdentifier(".".join(map(str, base)))], bulk_size=40), 10000)
+        else:
+            w = PyWrapper(client)
+            items, exc = drive.drain(w.bulkwalk([".".join(map(str, base))], bulk_size=40), 10000)
+            if exc:
+                raise exc
+            return [(tuple(int(a) for a in vb.oid.split(".")), vb.value) for vb in items]
+        if exc:
+            raise exc
+        return [(world.norm_oid(vb.oid), vb.value) for vb in items]
+
+    def judge(phase, how):
+        try:
+            got = fetch(how)
+        except drive.HarnessError:
+            raise
+        except Exception as exc:  # noqa
+            facts = {"family": "several values in one datagram", "phase": phase, "how": how, "exception": type(exc).__name__}
+            acc.count(evaluations=1, nontrivial=1)
+            acc.violation({"kind": "fetch-of-in-range-values-raised", "detail": {**facts, "message": str(exc)[:200]}, "facts": facts, "case": {"kind": "wire"}})
+            return
+        seen = dict(got)
+        for oid in oids:
+            cls, value, py = want[oid]
+            v = seen.get(oid)
+            if how == "pywrapper":
+                ok = v == py and type(v) is type(py)
+                shown = repr(v)
+            else:
+                ok = type(v) is cls and v.value == value and v.pythonize() == py and (cls is not TimeTicks or TimeTicks(v.pythonize()).value == value)
+                shown = "%r -> %r" % (v, v.pythonize() if v is not None else None)
+            acc.count(evaluations=1, nontrivial=1)
+            acc.outcome("wire-ok" if ok else "wire-wrong")
+            if not ok:
+                facts = {"family": "several values in one datagram", "phase": phase, "how": how, "type": cls.__name__, "value": str(value)}
+                acc.violation({"kind": "value-from-shared-datagram-converted-wrong", "detail": {**facts, "got": shown, "expected": str(py)}, "facts": facts, "case": {"kind": "wire"}})
+                return
+
+    for how in ("multiget", "walk", "bulkwalk", "pywrapper"):
+        judge("fresh", how)
+    # history: conversions of timedeltas between two ticks (whatever tick they
+    # are given is not judged here - the statement is about whole ticks)
+    for n in WIRE_NUMBERS:
+        for extra in (1, 4999, 5000, 9999):
+            try:
+                TimeTicks(TICK * n + timedelta(microseconds=extra))
+            except Exception:  # noqa
+                pass
+    for how in ("multiget", "walk", "bulkwalk", "pywrapper"):
+        judge("after-sub-tick-conversions", how)
+    acc.sample({"family": "several values in one datagram", "numbers": WIRE_NUMBERS, "ways": ["multiget", "walk", "bulkwalk", "PyWrapper.bulkwalk"], "phases": ["fresh", "after TimeTicks(timedelta between two ticks)"]})
 
 
 def tt_range(lo, hi, acc, first_bad):
@@ -154,6 +249,8 @@ def run_shard(params, acc):
         run_ip(acc)
     elif kind == "client":
         run_client(acc)
+    elif kind == "wire":
+        run_wire(acc)
 
 
 def counter_inputs():
@@ -288,6 +385,8 @@ def replay(case):
         return [{"kind": "timeticks-" + w, "detail": {"n": n, "got": g}} for w, n, g in first_bad]
     if case["kind"] == "client":
         run_client(acc)
+    elif case["kind"] == "wire":
+        run_wire(acc)
     elif case["kind"] in ("counter", "roundtrip"):
         run_counters(acc)
     elif case["kind"] == "unsigned":
@@ -301,7 +400,7 @@ def meta(tier):
     p = plan(tier)
     return {
         "level": "exploration",
-        "rule": "exhaustive ranges: every TimeTicks value 0..%d-1 and every value within +-%d of each 2^k (k<=32) and of each multiple of 10^7 below 2^32, in both conversion directions (an evaluation = one conversion compared with exact integer arithmetic: timedelta(milliseconds=10)*n); Counter/Counter64 constructors over %d integers from -2^70 to 2^66 (all 2^k+-2, dense bands at 0, 2^32, 2^64); unsigned decode over all boundary content patterns; 1360 IPv4 addresses; every value also through encode/decode against the reference codec; distinct_nontrivial counts distinct (value, direction) evaluations"
+        "rule": "exhaustive ranges: every TimeTicks value 0..%d-1 and every value within +-%d of each 2^k (k<=32) and of each multiple of 10^7 below 2^32, in both conversion directions (an evaluation = one conversion compared with exact integer arithmetic: timedelta(milliseconds=10)*n); Counter/Counter64 constructors over %d integers from -2^70 to 2^66 (all 2^k+-2, dense bands at 0, 2^32, 2^64); unsigned decode over all boundary content patterns; 1360 IPv4 addresses; every value also through encode/decode against the reference codec; 23 boundary numbers of every application type fetched together in one datagram (multiget, walk, bulk walk, wrapper) and converted, before and after conversions of timedeltas that lie between two ticks; distinct_nontrivial counts distinct (value, direction) evaluations"
         % (p["dense"], p["band"], len(counter_inputs())),
         "exhaustive": True,
         "bounds": p,
